@@ -282,7 +282,10 @@ class ControlledParallel:
         if iso == "chunk":
             results = _roundtrip(results)
         ctl.sched_point("parallel-end:" + label)
-        if self.return_as in ("generator", "generator_unordered"):
+        if self.return_as == "generator_unordered":
+            # joblib yields results as they complete: completion order = execution order here
+            return iter([results[i] for i in order])
+        if self.return_as == "generator":
             return iter(results)
         return results
 
